@@ -155,25 +155,53 @@ def run(ck):
         if "open(" not in ctx or "r+" not in ctx:
             probs.append(f"file opened as `{ctx}` (needs read/write without truncation)")
         fv = wn.items[0].optional_vars.id if isinstance(wn.items[0].optional_vars, ast.Name) else None
+        import re as _re
         kinds = []
         var = None
+        defs = {}           # local name -> expanded right-hand side (plain local definitions are looked through)
+
+        def expand(txt):
+            for _ in range(4):
+                for nm, rhs in defs.items():
+                    txt = _re.sub(rf"\b{_re.escape(nm)}\b", lambda _m, _r=rhs: f"({_r})", txt)
+            return txt
         for st in wn.body:
             s = ast.unparse(st)
-            if isinstance(st, ast.Assign) and "check_count" in s and f"{fv}.readline()" in s and isinstance(st.targets[0], ast.Name):
+            sx = expand(s) if not isinstance(st, ast.Assign) else s
+            if isinstance(st, ast.Assign) and "check_count" in s and f"{fv}.readline()" in expand(ast.unparse(st.value)) and isinstance(st.targets[0], ast.Name):
                 kinds.append("read"); var = st.targets[0].id
-            elif isinstance(st, ast.Expr) and s.replace(" ", "") == f"{fv}.seek(0)":
+            elif isinstance(st, ast.Assign) and len(st.targets) == 1 and isinstance(st.targets[0], ast.Name) and f"{fv}." not in ast.unparse(st.value):
+                defs[st.targets[0].id] = expand(ast.unparse(st.value))        # neutral local definition
+            elif isinstance(st, ast.Assign) and len(st.targets) == 1 and isinstance(st.targets[0], ast.Name) and ast.unparse(st.value) == f"{fv}.readline()":
+                defs[st.targets[0].id] = f"{fv}.readline()"
+            elif isinstance(st, ast.Expr) and sx.replace(" ", "").replace("(0)", "0") in (f"{fv}.seek0", f"{fv}.seek(0)") or (isinstance(st, ast.Expr) and s.replace(" ", "") == f"{fv}.seek(0)"):
                 kinds.append("seek")
-            elif isinstance(st, ast.Expr) and s.startswith(f"{fv}.write(") and "_increment_with_rollover" in s and var and f"({var})" in s and "\\n" in s:
+            elif isinstance(st, ast.Expr) and s.startswith(f"{fv}.write(") and "_increment_with_rollover" in sx and var and _re.search(rf"_increment_with_rollover\(\(?{var}\)?\)", sx) and "\\n" in sx:
                 kinds.append("write")
-            elif isinstance(st, ast.Return) and var and ast.unparse(st.value) == var:
+            elif isinstance(st, ast.Return) and var and expand(ast.unparse(st.value)).strip("()") == var:
                 kinds.append("return")
+            elif isinstance(st, ast.Expr) and s.replace(" ", "") == f"{fv}.truncate()":
+                pass        # cut at the current position, i.e. right after the text just written
+            elif isinstance(st, ast.Expr) and s.startswith(f"{fv}.truncate(") and "write" in kinds:
+                # truncate(n) after the write: n must be the length of the text just written
+                wr = [x for x in wn.body if isinstance(x, ast.Expr) and ast.unparse(x).startswith(f"{fv}.write(")]
+                written = expand(ast.unparse(wr[-1].value.args[0])) if wr and wr[-1].value.args else None
+                arg = expand(ast.unparse(st.value.args[0])) if st.value.args else ""
+                if written is None or arg.replace(" ", "") not in (f"len({written})".replace(" ", ""), f"len(({written}))".replace(" ", "")):
+                    probs.append(f"`{s}` cuts the file to a length other than that of the text just written ({arg}); the stored count is damaged when the "
+                                 "number of digits changes")
             else:
                 kinds.append("other:" + s[:30])
-        if kinds != ["read", "seek", "write", "return"]:
-            probs.append(f"statement order in the with-block is {kinds}; reference read, seek(0), write(successor), return old")
+        if any(k.startswith("other:") for k in kinds):
+            ck.unknown("P-MUST", "FileSeqCountProvider.get_and_increment", "read count, seek(0), write successor + newline, return old count - in this order inside the with-block",
+                       f"statement not recognised: {[k for k in kinds if k.startswith('other:')][:2]}")
+            kinds = None
+        elif kinds != ["read", "seek", "write", "return"]:
+            probs.append(f"order of the file operations in the with-block is {kinds}; reference read, seek(0), write(successor), return old")
         if [n for n in f.node.body if isinstance(n, ast.Return)]:
             probs.append("a return outside the with-block")
-    ck.verdict("P-MUST", "FileSeqCountProvider.get_and_increment", "read count, seek(0), write successor + newline, return old count - in this order inside the with-block", probs, "straight-line block")
+    if not (len(withs) == 1 and kinds is None):
+        ck.verdict("P-MUST", "FileSeqCountProvider.get_and_increment", "read count, seek(0), write successor + newline, return old count - in this order inside the with-block", probs, "straight-line block")
     # ---------------------------------------------------------------- readers agree with the writer about what is stored
     # get_and_increment overwrites the count in place (seek(0) + write) without truncating, so after a shorter count has
     # replaced a longer one stale characters follow the first line: the stored count is the FIRST LINE only
@@ -184,6 +212,11 @@ def run(ck):
         calls = [n for n in ast.walk(fnode) if isinstance(n, ast.Call) and isinstance(n.func, ast.Attribute) and n.func.attr == "check_count"]
         for c in calls:
             arg = ast.unparse(c.args[0]) if c.args else ""
+            if c.args and isinstance(c.args[0], ast.Name):
+                # a local that holds what was read: look through its definition
+                dfs = [n_ for n_ in ast.walk(fnode) if isinstance(n_, ast.Assign) and len(n_.targets) == 1 and isinstance(n_.targets[0], ast.Name) and n_.targets[0].id == c.args[0].id]
+                if len(dfs) == 1:
+                    arg = ast.unparse(dfs[0].value)
             what = f"{meth} validates the stored count, i.e. the first line of the file"
             first_line = (arg.endswith(".readline()") or arg.endswith(".readlines()[0]") or arg.endswith(".splitlines()[0]") or arg.startswith("next("))
             whole = arg.endswith(".read()") or arg.endswith(".read_text()")
